@@ -1,7 +1,7 @@
 PROP = {
     "id": "C08",
     "theorem_modules": ["Verif.Properties.C08"],
-    "min_theorems": 10,
+    "min_theorems": 17,
     "required_theorems": [
         "Verif.Properties.C08.rules_unchanged",
         "Verif.Properties.C08.refl",
@@ -12,6 +12,13 @@ PROP = {
         "Verif.Properties.C08.simple_agree",
         "Verif.Properties.C08.trans_simple_partial",
         "Verif.Properties.C08.trans_covariant_partial",
+        "Verif.Properties.C08.fuel_not_monotone_witness",
+        "Verif.Properties.C08.struct_agree",
+        "Verif.Properties.C08.fuel_stable",
+        "Verif.Properties.C08.fuel_monotone_partial",
+        "Verif.Properties.C08.trans_struct_partial",
+        "Verif.Properties.C08.trans_kindstable_partial",
+        "Verif.Properties.C08.trans_witness_contravariant",
     ],
     "gen": [["vtool", "gen-rules"]],
     "tool_files": ["tool_rules.go"],
@@ -22,25 +29,35 @@ PROP = {
     "exhaustive": False,
     "technique": "Lean 4 model that interprets the rule data regenerated from rules.yaml (TR) + correspondence stream over six Go subtype relations",
     "level_text": "The Lean subtype relation is the interpretation of the rule data regenerated from tools/subtype-gen/rules.yaml on every "
-                  "run (by the repository's own rules parser) and proved equal to the pinned rules (`rules_unchanged`); theorems about it: "
-                  "reflexivity, Never bottom, Any top for all types; the transitivity failure `&[Never] <: &[AnyResource] <: &AnyResource` and "
-                  "the run-time/checker disagreement on `Never?` as kernel-checked witnesses; the interpreted rules equal a structured "
-                  "relation (parent hierarchy) on the whole 49x49 simple-type table (`simple_agree`, kernel decide); transitivity on the whole "
-                  "simple-type lattice (`trans_simple_partial`, all 49^3 triples) and under any stack of array/optional constructors over it "
-                  "(`trans_covariant_partial`), besides the trivial region (`trans_partial`). Tied to /repo by the `types` stream: all pairs of 49 simple and 18 nominal types and generated "
-                  "pairs / chain-biased triples of structured types (optionals, arrays, dictionaries, references with authorizations, "
-                  "composites, interfaces, intersections, functions, capabilities, inclusive ranges) built with the real sema API from a "
+                  "run (by the repository's own rules parser) and proved equal to the pinned rules (`rules_unchanged`). Theorems, for all types of the "
+                  "algebra (simple types, optionals, arrays, dictionaries, references with authorizations, composites, interfaces, intersections, "
+                  "function types, capabilities, inclusive ranges; any nesting): reflexivity, Never bottom, Any top; `struct_agree`: on well-formed "
+                  "types the interpreted rules, at any fuel from the driver's bound upwards, equal a structured relation `Struct.sub` with one clause "
+                  "per constructor (per-rule unfolding lemmas for all 26 rules + induction on size), hence fuel stability (`fuel_stable`, "
+                  "`fuel_monotone_partial`; the naive monotonicity from fuel 0 is false, `fuel_not_monotone_witness`); "
+                  "`trans_kindstable_partial`: TRANSITIVITY of the interpreted rules over the whole algebra — same-shape chains and shape-changing "
+                  "chains into T?, AnyStruct, AnyResource, the attachment tops, HashableStruct, Any — for coherent nominal declarations (conformance "
+                  "sets transitively closed), writable authorizations (transitivity of PermitsAccess from M-AUTH), `Any` at most as a whole type, "
+                  "under the hypothesis that the sub-most type has no `Never` directly below an optional/array/dictionary constructor in covariant "
+                  "position and the super-most type none in contravariant position (function parameters); outside that region transitivity really "
+                  "fails: `trans_witness` (&[Never] <: &[AnyResource] <: &AnyResource) and `trans_witness_contravariant` "
+                  "(fun(&AnyResource) <: fun(&[AnyResource]) <: fun(&[Never])), both kernel-checked and replayed against Go (known finding). Also: the "
+                  "run-time/checker disagreement on `Never?` as witness, `runtime_agrees_partial`, the 49x49 simple-type table (`simple_agree`) and "
+                  "49^3 transitivity table. Tied to /repo by the `types` stream: all pairs of 49 simple and 18 nominal types and generated "
+                  "pairs / chain-biased triples of structured types (incl. related function and range types) built with the real sema API from a "
                   "universe declared through the real checker; sema.IsSubType, interpreter.IsSubType, IsSubTypeOfSemaType, the hand-written "
-                  "and both generated CheckSubTypeWithoutEquality functions and the sema->static->sema round trip must agree with each other "
-                  "and with the Lean relation; reflexivity, bounds and transitivity are judged directly on the Go answers.",
-    "level_note": "Partial: transitivity is proved for simple types and same-shape covariant containers over them, NOT for the whole algebra "
-                  "(shape-changing chains to AnyStruct/AnyResource/HashableStruct, dictionaries, references, nominal types, intersections, "
-                  "functions are missing; see the comment at `trans_partial`); it is searched by the stream on chain-biased triples. Function type parameters, legacy intersection types, `Storable` and nested `Any` are outside the "
+                  "and both generated CheckSubTypeWithoutEquality functions and the sema->static->sema round trip must agree with each other, "
+                  "with the interpreted rules AND with the structured relation `Struct.sub` (a disagreement is a MODELDIFF); reflexivity, bounds and "
+                  "transitivity are judged directly on the Go answers; a transitivity failure is the known finding only outside the theorem's region.",
+    "level_note": "Transitivity is named partial because the unrestricted statement is false (known finding); inside the model nothing else is "
+                  "missing. Hypotheses that are not checked per operation by the driver: coherence of the nominal facts (`Coh`, `nomOK`: they are "
+                  "printed from one checked program's real sema types) and `IsAuth` of reference authorizations (generator emits non-empty sets). "
+                  "Function type parameters, legacy intersection types, `Storable` and nested `Any` are outside the "
                   "model. The interpreter follows the code generators' statement-sequence reading of `or` (a plain boolean reading of "
-                  "rules.yaml's IntersectionType rule would accept almost everything). Nominal facts (kind, conformance sets) are printed by "
-                  "the harness from the real checker's types.",
+                  "rules.yaml's IntersectionType rule would accept almost everything). Observed, not a property violation: `I <: {I}` is false "
+                  "in every Go relation (an interface is not below the intersection of itself), the model agrees.",
     "assumptions": ["types are in canonical form (sorted entitlement / conformance / intersection sets) so Equal is structural equality",
-                    "fuel 40*(|a|+|b|)+40 suffices (validated by the stream: a shortage would show as a model difference)"],
+                    "fuel 40*(|a|+|b|)+40 suffices: now a theorem (`struct_agree` / `fuel_stable`: any fuel from that bound upwards gives the same answer on well-formed types)"],
     "trusted_base": ["rule interpreter Verif.Model.Types.Subtype validated by stream types", "vtool gen-rules (uses /repo's own rules parser)",
                      "Go harness cmd/vharness/stream_types.go", "driver Drv/Types.lean"],
 }
